@@ -67,9 +67,13 @@ pub enum RelEdit {
     SetArchs1,
     SetArchs2,
     AddProfile,
+    /// a group of one term / of three terms, a list of three architectures
+    AddProfile1,
+    AddProfile3,
+    SetArchs3,
 }
-pub const REL_EDITS: [RelEdit; 11] =
-    [RelEdit::SetVersion, RelEdit::SetVersionGe, RelEdit::SetVersionLe, RelEdit::SetVersionGt, RelEdit::SetVersionLt, RelEdit::ClearVersion, RelEdit::DropConstraint, RelEdit::SetArchqual, RelEdit::SetArchs1, RelEdit::SetArchs2, RelEdit::AddProfile];
+pub const REL_EDITS: [RelEdit; 14] =
+    [RelEdit::SetVersion, RelEdit::SetVersionGe, RelEdit::SetVersionLe, RelEdit::SetVersionGt, RelEdit::SetVersionLt, RelEdit::ClearVersion, RelEdit::DropConstraint, RelEdit::SetArchqual, RelEdit::SetArchs1, RelEdit::SetArchs2, RelEdit::AddProfile, RelEdit::AddProfile1, RelEdit::AddProfile3, RelEdit::SetArchs3];
 /// first edits of a two-edit sequence through one handle: the ones that may re-root the handle
 pub const REROOTING: [RelEdit; 4] = [RelEdit::SetVersion, RelEdit::SetArchs1, RelEdit::AddProfile, RelEdit::SetArchqual];
 
@@ -95,6 +99,10 @@ pub enum ROp {
     KeptRel(usize, usize, EOp, RelEdit),
     /// an entry handle e taken FIRST, then a field-level operation (push / insert elsewhere), then a push through the kept handle
     KeptEntry(usize, usize, ROperand),
+    /// TWO handles to the same relation (e, j): the first edit through one, the second through the other
+    TwoHandles(usize, usize, RelEdit, RelEdit),
+    /// a relation handle (e, j) taken FIRST, then a field-level insertion in front of its entry, then an edit through it
+    KeptRelAcrossField(usize, usize, RelEdit),
 }
 
 /// an alternative-level operation through an entry handle
@@ -273,6 +281,9 @@ fn apply_edit_live(r: &mut ll::Relation, e: RelEdit) {
         RelEdit::SetArchs1 => r.set_architectures(["arm64"].into_iter()),
         RelEdit::SetArchs2 => r.set_architectures(["!s390x", "!mips"].into_iter()),
         RelEdit::AddProfile => r.add_profile(&[BuildProfile::Enabled("p".into()), BuildProfile::Disabled("q".into())]),
+        RelEdit::AddProfile1 => r.add_profile(&[BuildProfile::Disabled("p".into())]),
+        RelEdit::AddProfile3 => r.add_profile(&[BuildProfile::Enabled("p".into()), BuildProfile::Disabled("q".into()), BuildProfile::Enabled("r".into())]),
+        RelEdit::SetArchs3 => r.set_architectures(["armhf", "arm64", "riscv64"].into_iter()),
     }
 }
 fn apply_edit_model(m: &mut MRel, e: RelEdit) {
@@ -287,6 +298,9 @@ fn apply_edit_model(m: &mut MRel, e: RelEdit) {
         RelEdit::SetArchs1 => m.archs = Some(vec!["arm64".into()]),
         RelEdit::SetArchs2 => m.archs = Some(vec!["!s390x".into(), "!mips".into()]),
         RelEdit::AddProfile => m.profiles.push(vec!["p".into(), "!q".into()]),
+        RelEdit::AddProfile1 => m.profiles.push(vec!["!p".into()]),
+        RelEdit::AddProfile3 => m.profiles.push(vec!["p".into(), "!q".into(), "r".into()]),
+        RelEdit::SetArchs3 => m.archs = Some(vec!["armhf".into(), "arm64".into(), "riscv64".into()]),
     }
 }
 
@@ -474,6 +488,12 @@ fn ops_for(model: &[Vec<MRel>], _t: Tier, light: bool) -> Vec<ROp> {
                 for b in REL_EDITS {
                     ops.push(ROp::RelPair(e, j, a, b));
                 }
+                for b in REROOTING {
+                    ops.push(ROp::TwoHandles(e, j, a, b));
+                }
+                if model.len() < MAX_ENTRIES {
+                    ops.push(ROp::KeptRelAcrossField(e, j, a));
+                }
             }
         }
     }
@@ -543,6 +563,17 @@ fn live_apply(root: &mut ll::Relations, op: &ROp) -> Result<Ret, String> {
             apply_edit_live(&mut r, *a);
             apply_edit_live(&mut r, *b);
         }
+        ROp::TwoHandles(e, j, a, b) => {
+            let mut h1 = get_e(root, *e)?.get_relation(*j).ok_or("no such relation")?;
+            let mut h2 = get_e(root, *e)?.get_relation(*j).ok_or("no such relation")?;
+            apply_edit_live(&mut h1, *a);
+            apply_edit_live(&mut h2, *b);
+        }
+        ROp::KeptRelAcrossField(e, j, ed) => {
+            let mut kept = get_e(root, *e)?.get_relation(*j).ok_or("no such relation")?;
+            root.insert(0, mk_entry(EOperand::Parsed).0);
+            apply_edit_live(&mut kept, *ed);
+        }
     }
     Ok(Ret::Nothing)
 }
@@ -596,10 +627,17 @@ fn model_apply(m: &mut Vec<Vec<MRel>>, op: &ROp) -> Result<(), String> {
             en.remove(*j);
         }
         ROp::Rel(e, j, ed) => apply_edit_model(m.get_mut(*e).ok_or_else(oob)?.get_mut(*j).ok_or_else(oob)?, *ed),
-        ROp::RelPair(e, j, a, b) => {
+        ROp::RelPair(e, j, a, b) | ROp::TwoHandles(e, j, a, b) => {
             let r = m.get_mut(*e).ok_or_else(oob)?.get_mut(*j).ok_or_else(oob)?;
             apply_edit_model(r, *a);
             apply_edit_model(r, *b);
+        }
+        ROp::KeptRelAcrossField(e, j, ed) => {
+            if *e >= m.len() || *j >= m[*e].len() {
+                return Err(oob());
+            }
+            m.insert(0, mk_entry(EOperand::Parsed).1);
+            apply_edit_model(m.get_mut(*e + 1).ok_or_else(oob)?.get_mut(*j).ok_or_else(oob)?, *ed);
         }
     }
     Ok(())
@@ -738,12 +776,12 @@ fn run(c: &C11Case) -> Result<(Vec<Viol>, String), String> {
             ROp::Insert(at, _) => (0..nb).map(|i| (i, if i >= (*at).min(nb) { i + 1 } else { i })).collect(),
             ROp::Replace(at, _) => (0..nb).filter(|i| i != at).map(|i| (i, i)).collect(),
             ROp::RemoveEntry(at) | ROp::EntrySelfRemove(at) => (0..nb).filter(|i| i != at).map(|i| (i, if i > *at { i - 1 } else { i })).collect(),
-            ROp::KeptRel(..) | ROp::KeptEntry(..) => vec![],
+            ROp::KeptRel(..) | ROp::KeptEntry(..) | ROp::KeptRelAcrossField(..) => vec![],
             ROp::EntryPair(e, a, b) if matches!(a, EOp::Remove(_)) || matches!(b, EOp::Remove(_)) => {
                 let dropped = after_entries.len() + 1 == nb;
                 (0..nb).filter(|i| i != e).map(|i| (i, if dropped && i > *e { i - 1 } else { i })).collect()
             }
-            ROp::EPush(e, _) | ROp::EReplace(e, ..) | ROp::Rel(e, ..) | ROp::RelPair(e, ..) | ROp::EntryPair(e, ..) => (0..nb).filter(|i| i != e).map(|i| (i, i)).collect(),
+            ROp::EPush(e, _) | ROp::EReplace(e, ..) | ROp::Rel(e, ..) | ROp::RelPair(e, ..) | ROp::TwoHandles(e, ..) | ROp::EntryPair(e, ..) => (0..nb).filter(|i| i != e).map(|i| (i, i)).collect(),
             ROp::ERemove(e, _) | ROp::RelRemove(e, _) => {
                 let dropped = after_entries.len() + 1 == nb;
                 (0..nb).filter(|i| i != e).map(|i| (i, if dropped && i > *e { i - 1 } else { i })).collect()
@@ -896,7 +934,8 @@ impl Prop for C11 {
                 ROp::Replace(a, o) if *o != EOperand::Parsed => vec![ROp::Replace(*a, EOperand::Parsed)],
                 ROp::EPush(e, o) if *o != ROperand::Simple => vec![ROp::EPush(*e, ROperand::Simple)],
                 ROp::EReplace(e, j, o) if *o != ROperand::Simple => vec![ROp::EReplace(*e, *j, ROperand::Simple)],
-                ROp::RelPair(e, j, a, b) => vec![ROp::Rel(*e, *j, *a), ROp::Rel(*e, *j, *b)],
+                ROp::RelPair(e, j, a, b) | ROp::TwoHandles(e, j, a, b) => vec![ROp::Rel(*e, *j, *a), ROp::Rel(*e, *j, *b)],
+                ROp::KeptRelAcrossField(e, j, ed) => vec![ROp::Rel(*e, *j, *ed)],
                 ROp::EntryPair(e, a, b) => [a, b]
                     .iter()
                     .map(|x| match x {
